@@ -186,8 +186,9 @@ func (j *Journal) Process(ps ...*Processor) error {
 			fs = append(fs, proc.Process)
 		}
 	}
-	fs = verifWrap(fs)
+	fs = verifWrap(fs, len(j.Days))
 	_, err := cpr.Seq(context.Background(), j.Days, fs...)
+	verifEnd(err)
 	return err
 }
 
